@@ -1,5 +1,5 @@
 CFG = dict(
-    theorems=["C11.lex_progress", "C11.lex_terminates", "C11.lex_total", "C11.lex_layout_insensitive",
+    theorems=["C11.lex_progress", "C11.lex_terminates", "C11.lex_total", "C11.lex_token_is_slice", "C11.lex_layout_insensitive",
               "C11.lex_layout_pair", "C11.lex_keyword_case_insensitive", "C11.lex_literal_opaque",
               "C11.lex_backtick_opaque", "C11.facts_keywords", "C11.facts_typos", "C11.facts_token_codes"],
     level="proof",
@@ -7,7 +7,7 @@ CFG = dict(
     rule="four case kinds per seed: (lexer) ops `lex` = byte strings (any byte incl. NUL / SQL punctuation soup / keyword+typo soup / digits-dots-minus) "
          "and `lexr` = lists of source tokens (keywords, typos, identifiers with dots, numbers incl. malformed, negative numbers, strings of either quote "
          "with keyword bodies, backtick identifiers, all 21 operators) rendered with random whitespace and case masks, one required separator dropped on purpose in ~10% — "
-         "rsql.NewLexer token stream (type, value, position, recorded lexical errors) vs the Lean lexer model, byte-exact, plus the oracles "
+         "rsql.NewLexer token stream (type, value, position, line, column, recorded lexical errors, readPreviousIdentifier after each token) vs the Lean lexer model, byte-exact, plus the oracles "
          "LexSpec.isTokenization and LexSpec.expected; (statement) one statement of the reference grammar (harness/c11_stmt.go: select items with aliases, "
          "FROM [alias], stream-table JOINs, MATCH_RECOGNIZE (PARTITION BY / ORDER BY / MEASURES / ROWS PER MATCH / PATTERN with quantifiers and alternation / WITHIN / DEFINE), WHERE, GROUP BY + five window kinds, HAVING, WITH options, ORDER BY, LIMIT, DISTINCT; literals containing LIMIT/ORDER BY/WHERE/FROM/quotes; "
          "backtick identifiers) rendered in 5 layouts / keyword spellings, each parsed by rsql.NewParser(..).Parse() and rsql.Parse: clause lines vs the "
@@ -31,7 +31,7 @@ CFG = dict(
         "configuration texts are compared up to keyword spelling: keyword tokens inside expression texts kept by the parser (CASE/WHEN/…) are upper-cased "
         "before comparison; literals and identifiers are compared byte-exactly",
         "select-item expression texts are compared up to the spacing the parser chooses when re-joining tokens (both sides re-lexed, values joined by one space)",
-        "lexer model bytes are Nat; the driver feeds values < 256; Line/Column fields of tokens are not compared (Pos is)",
+        "lexer model bytes are Nat; the driver feeds values < 256; Line/Column of recorded errors are not compared (their type and Position are; tokens: Pos, Line, Column are)",
     ],
 )
 META = dict(
